@@ -324,4 +324,6 @@ VARIANTS = [
     V('C19', 'S', 'gitignore folders compared with + os.sep', REF, "        if curr_path == p[0] or curr_path.startswith(os.path.join(p[0], ''))", "        if curr_path == p[0] or curr_path.startswith(p[0] + os.path.sep)"),
     V('C10', 'B', 'dotted name from a string prefix', SYS, "                elif rest and not p.endswith((os.path.sep, '/')):\n", "                elif rest and False:\n", 'C10.f'),
     V('C10', 'S', 'separator test of the dotted-name remainder restructured', SYS, "                elif rest and not p.endswith((os.path.sep, '/')):\n", "                elif rest and not (p.endswith(os.path.sep) or p.endswith('/')):\n"),
+    V('C01', 'B', 'callable of a forwarding call taken as first child of the parent', 'jedi/inference/star_args.py',
+      "    return infer_call_of_leaf(context, trailer.children[0], cut_own_trailer=True)", "    return context.infer_node(trailer.parent.children[0])", 'C01.j'),
 ]
